@@ -678,10 +678,11 @@ func (a *Authenticator) handleSessionResumption(ctx context.Context, sessionID s
 	}
 	// A session is resumed by proving possession of its key: from the reply onwards
 	// the connection is protected by that key. A cached session that carries no key
-	// (negotiated without a common cipher) offers no such proof -- anyone who learns
+	// (negotiated without a common cipher), or a key for a cipher the stream cannot
+	// apply (only AES-GCM is implemented), offers no such proof -- anyone who learns
 	// the session id could ride it -- so it is never resumed; the client falls back
 	// to a full handshake exactly as for an unknown id.
-	if ok && (entry.KeyInfo() == nil || len(entry.KeyInfo().Data) == 0) {
+	if ok && (entry.KeyInfo() == nil || len(entry.KeyInfo().Data) == 0 || !isAESGCM(CryptoMethod(entry.KeyInfo().Protocol))) {
 		ok = false
 	}
 	if !ok {
@@ -1321,9 +1322,9 @@ func (a *Authenticator) storeSession(negotiation *SecurityNegotiation, sessionID
 		}
 	}
 
-	// A session without a key cannot be resumed (resumption is proof of possession
-	// of the key), so there is nothing to cache.
-	if keyInfo == nil {
+	// A session without an AES-GCM key cannot be resumed (resumption is proof of
+	// possession of the key that protects the connection), so there is nothing to cache.
+	if keyInfo == nil || !isAESGCM(negotiation.NegotiatedCrypto) {
 		return
 	}
 
@@ -1383,9 +1384,9 @@ func (a *Authenticator) storeClientSession(negotiation *SecurityNegotiation, dur
 		}
 	}
 
-	// A session without a key cannot be resumed (the server refuses it), so caching
-	// it would only make the next connection attempt a doomed resumption.
-	if keyInfo == nil {
+	// A session without an AES-GCM key cannot be resumed (the server refuses it), so
+	// caching it would only make the next connection attempt a doomed resumption.
+	if keyInfo == nil || !isAESGCM(negotiation.NegotiatedCrypto) {
 		return
 	}
 
